@@ -30,6 +30,17 @@ def spellings(rng, rule: str):
     return rng.choice(opts)
 
 
+def name_hits(named: str, rid: str) -> bool:
+    """does a directive that names `named` cover the rule `rid`?  (exact rule id, its linter, `linter.*`, any letter case, deprecated aliases)"""
+    n, r = named.lower(), rid.lower()
+    lint = r.split(".")[0]
+    if n == "print-statements.detected":
+        return r == "improper-logging.print-statement"
+    if n in ("print-statements", "print-statements.*"):
+        return lint == "improper-logging"
+    return n in (r, lint, lint + ".*")
+
+
 def other_rule(rng, rule: str):
     return rng.choice([r for r in RULES if r.split(".")[0] != rule.split(".")[0]])
 
@@ -273,7 +284,7 @@ def run(tier: str, seed: int, st: core.ProofStatus) -> core.Result:
             expect = []
             for rid, ln, msg in base:
                 in_scope = (p["scope"] is None) or (ln in p["scope"])
-                hit = names_rule and in_scope and rid.split(".")[0] == lint
+                hit = names_rule and in_scope and name_hits(p["named"], rid)
                 if not hit:
                     expect.append([rid, p["shift"](ln)])
             got = [[rid, ln] for rid, ln, _ in r["vs"]]
